@@ -140,11 +140,23 @@ Qed.
 
 (* ---------- [validate] ---------- *)
 
-Lemma validate_ok : forall a, v_schema a = SOk ->
+Lemma validate_ok : forall a, schema_ok (v_schema a) = true ->
   r_reports (validate a) = fst (run a (todo a)) /\ r_fail (validate a) = snd (run a (todo a))
-  /\ r_schema (validate a) = EvNone.
+  /\ exists i, schema_root (v_schema a) = Some i /\ r_schema (validate a) = EvRoot i.
 Proof.
-  intros a Hs. unfold Cli.validate. rewrite Hs. destruct (run a (todo a)). cbn. auto.
+  intros a Hs. unfold schema_ok, schema_root in *. unfold Cli.validate.
+  destruct (v_schema a) as [| | |rs]; try discriminate.
+  destruct (root_index rs) as [i|]; [|discriminate].
+  destruct (run a (todo a)). cbn. repeat split; auto. exists i; auto.
+Qed.
+
+Lemma validate_not_ok : forall a, schema_ok (v_schema a) = false ->
+  r_reports (validate a) = [] /\
+  r_fail (validate a) = match v_schema a with SMissing => v_ci a | _ => true end.
+Proof.
+  intros a Hs. unfold schema_ok, schema_root in *. unfold Cli.validate.
+  destruct (v_schema a) as [| | |rs]; cbn; auto.
+  destruct (root_index rs); [discriminate | cbn; auto].
 Qed.
 
 (* every route makes exactly the call the property asks for *)
@@ -181,15 +193,16 @@ Theorem report_sound : forall a x,
   In (x, OSucc) (r_reports (validate a)) ->
   In x (todo a) /\ usable x = true /\ expected a x = true.
 Proof.
-  intros a x Hin. unfold Cli.validate in Hin. destruct (v_schema a) eqn:Hs; try contradiction.
-  destruct (run a (todo a)) as [rs e] eqn:Hrun. cbn [r_reports] in Hin.
-  assert (H := run_reports_step a (todo a) x OSucc). rewrite Hrun in H. cbn [fst] in H.
-  destruct (H Hin) as [Hst Hin']. symmetry in Hst. apply step_succ in Hst. destruct Hst as [Hu Hl].
-  rewrite made_is_expected in Hl. auto.
+  intros a x Hin. destruct (schema_ok (v_schema a)) eqn:Hs.
+  - destruct (validate_ok a Hs) as [Hrep _]. rewrite Hrep in Hin.
+    destruct (run_reports_step a (todo a) x OSucc Hin) as [Hst Hin'].
+    symmetry in Hst. apply step_succ in Hst. destruct Hst as [Hu Hl].
+    rewrite made_is_expected in Hl. auto.
+  - destruct (validate_not_ok a Hs) as [Hrep _]. rewrite Hrep in Hin. contradiction.
 Qed.
 
 Theorem report_iff_lib : forall a pre x post,
-  v_schema a = SOk -> todo a = pre ++ x :: post -> reaches a pre = true -> usable x = true ->
+  schema_ok (v_schema a) = true -> todo a = pre ++ x :: post -> reaches a pre = true -> usable x = true ->
   (In (x, OSucc) (r_reports (validate a)) <-> expected a x = true).
 Proof.
   intros a pre x post Hs Htodo Hre Hu. split.
@@ -203,13 +216,12 @@ Qed.
 Theorem reports_prefix : forall a, exists k,
   r_reports (validate a) = map (fun x => (x, step a x)) (firstn k (todo a)).
 Proof.
-  intros a. unfold Cli.validate. destruct (v_schema a);
-    try (exists 0%nat; reflexivity).
-  destruct (run_prefix a (todo a)) as [k Hk]. exists k.
-  destruct (run a (todo a)). cbn [r_reports fst] in *. exact Hk.
+  intros a. destruct (schema_ok (v_schema a)) eqn:Hs.
+  - destruct (validate_ok a Hs) as [Hrep _]. rewrite Hrep. apply run_prefix.
+  - destruct (validate_not_ok a Hs) as [Hrep _]. rewrite Hrep. exists 0%nat. reflexivity.
 Qed.
 
-Theorem noci_all_reported : forall a, v_ci a = false -> v_schema a = SOk ->
+Theorem noci_all_reported : forall a, v_ci a = false -> schema_ok (v_schema a) = true ->
   (forall x, In x (todo a) -> step a x <> OIoErr) ->
   r_reports (validate a) = map (fun x => (x, step a x)) (todo a).
 Proof.
@@ -217,7 +229,7 @@ Proof.
   apply run_all_noci; assumption.
 Qed.
 
-Theorem ci_stops_at_first_failure : forall a pre x post, v_ci a = true -> v_schema a = SOk ->
+Theorem ci_stops_at_first_failure : forall a pre x post, v_ci a = true -> schema_ok (v_schema a) = true ->
   todo a = pre ++ x :: post -> (forall y, In y pre -> step a y = OSucc) -> step a x <> OSucc ->
   r_reports (validate a) = map (fun y => (y, step a y)) pre ++ [(x, step a x)]
   /\ r_fail (validate a) = true.
@@ -226,23 +238,20 @@ Proof.
   rewrite Hrep, Hf, Htodo, (run_ci_first_failure a pre x post Hci Hpre Hx). auto.
 Qed.
 
-Lemma schema_cases : forall a, v_schema a = SOk \/ v_schema a <> SOk.
-Proof. intros a. destruct (v_schema a); auto; right; discriminate. Qed.
-
 Theorem ci_exit_iff_made : forall a, v_ci a = true ->
   (r_fail (validate a) = true <->
-   v_schema a <> SOk \/ exists x, In x (todo a) /\ step a x <> OSucc).
+   schema_ok (v_schema a) = false \/ exists x, In x (todo a) /\ step a x <> OSucc).
 Proof.
-  intros a Hci. destruct (schema_cases a) as [Hs|Hs].
+  intros a Hci. destruct (schema_ok (v_schema a)) eqn:Hs.
   - destruct (validate_ok a Hs) as [_ [Hf _]]. rewrite Hf, run_fail_ci by exact Hci.
-    split; [intros H; right; exact H | intros [H|H]; [congruence | exact H]].
-  - split; [intros _; left; exact Hs | intros _].
-    unfold Cli.validate. destruct (v_schema a); try reflexivity; [congruence | exact Hci].
+    split; [intros H; right; exact H | intros [H|H]; [discriminate | exact H]].
+  - destruct (validate_not_ok a Hs) as [_ Hf]. rewrite Hf. split; [intros _; left; reflexivity | intros _].
+    destruct (v_schema a); auto.
 Qed.
 
 Theorem ci_exit_iff : forall a, v_ci a = true ->
   (r_fail (validate a) = true <->
-   v_schema a <> SOk \/ exists x, In x (todo a) /\ (usable x = false \/ expected a x = false)).
+   schema_ok (v_schema a) = false \/ exists x, In x (todo a) /\ (usable x = false \/ expected a x = false)).
 Proof.
   intros a Hci. rewrite ci_exit_iff_made by exact Hci. split.
   - intros [H|[x [Hin Hx]]]; [left; exact H | right]. exists x. split; [exact Hin|].
@@ -253,24 +262,58 @@ Qed.
 
 Theorem noci_exit_iff : forall a, v_ci a = false ->
   (r_fail (validate a) = true <->
-   In (v_schema a) [SUnreadable; SNoParse; SNoRoot] \/
-   (v_schema a = SOk /\ exists x, In x (todo a) /\ step a x = OIoErr)).
+   (schema_ok (v_schema a) = false /\ v_schema a <> SMissing) \/
+   (schema_ok (v_schema a) = true /\ exists x, In x (todo a) /\ step a x = OIoErr)).
 Proof.
-  intros a Hci. destruct (schema_cases a) as [Hs|Hs].
+  intros a Hci. destruct (schema_ok (v_schema a)) eqn:Hs.
   - destruct (validate_ok a Hs) as [_ [Hf _]]. rewrite Hf, run_fail_noci by exact Hci.
-    split.
-    + intros H; right; split; [exact Hs | exact H].
-    + intros [H|[_ H]]; [|exact H]. rewrite Hs in H. cbn in H.
-      destruct H as [H|[H|[H|[]]]]; discriminate.
-  - unfold Cli.validate. destruct (v_schema a) eqn:E; cbn [r_fail In]; try congruence.
-    + rewrite Hci. split; [discriminate|].
-      intros [[H|[H|[H|[]]]]|[H _]]; discriminate.
-    + split; [intros _; left; auto | reflexivity].
-    + split; [intros _; left; auto | reflexivity].
-    + split; [intros _; left; auto | reflexivity].
+    split; [intros H; right; auto | intros [[H _]|[_ H]]; [discriminate | exact H]].
+  - destruct (validate_not_ok a Hs) as [_ Hf]. rewrite Hf.
+    destruct (v_schema a); rewrite ?Hci; split; intros H; auto;
+      try (left; split; [reflexivity | discriminate]);
+      try discriminate.
+    destruct H as [[_ H]|[H _]]; [congruence | discriminate].
+Qed.
+
+(* ---------- which rule is the root ---------- *)
+
+Lemma root_from_spec : forall pre post i,
+  (forall k, In k pre -> is_root k = false) ->
+  root_from i (pre ++ KType false :: post) = Some (i + N.of_nat (length pre)).
+Proof.
+  induction pre as [|k t IH]; intros post i Hpre.
+  - cbn. rewrite N.add_0_r. reflexivity.
+  - cbn [app root_from length]. rewrite (Hpre k (or_introl eq_refl)).
+    rewrite IH by (intros k' Hk'; apply Hpre; right; exact Hk').
+    f_equal. rewrite Nat2N.inj_succ. rewrite <- N.add_1_l, N.add_assoc. reflexivity.
+Qed.
+
+Lemma root_from_none : forall rs i,
+  root_from i rs = None <-> (forall k, In k rs -> is_root k = false).
+Proof.
+  induction rs as [|k t IH]; intros i.
+  - cbn. split; [intros _ k [] | reflexivity].
+  - cbn [root_from]. destruct (is_root k) eqn:Hk.
+    + split; [discriminate | intros H; rewrite (H k (or_introl eq_refl)) in Hk; discriminate].
+    + rewrite IH. split.
+      * intros H k' [Heq|Hin]; [subst; exact Hk | apply H; exact Hin].
+      * intros H k' Hin. apply H. right. exact Hin.
 Qed.
 
 End Proofs.
+
+(* the root is the first type rule without generic parameters, wherever it stands *)
+Theorem root_is_first_plain_type_rule : forall pre post,
+  (forall k, In k pre -> is_root k = false) ->
+  root_index (pre ++ KType false :: post) = Some (N.of_nat (length pre)).
+Proof. intros pre post H. unfold root_index. rewrite root_from_spec by exact H. reflexivity. Qed.
+
+Theorem no_root_iff : forall rs,
+  has_root rs = false <-> (forall k, In k rs -> is_root k = false).
+Proof.
+  intros rs. unfold has_root, root_index. rewrite <- (root_from_none rs 0).
+  destruct (root_from 0 rs); split; intros H; congruence.
+Qed.
 
 (* ---------- compile-cddl ---------- *)
 
